@@ -633,8 +633,18 @@ impl ImageXObject {
                 }).unwrap_or(filters.len());
                 
                 let (normal_filters, image_filters) = filters.split_at(end);
-                let data = resolve.get_data_or_decode(id, file_range.clone(), normal_filters)?;
-        
+                let data = if image_filters.is_empty() {
+                    resolve.get_data_or_decode(id, file_range.clone(), normal_filters)?
+                } else {
+                    // Only part of the filters is applied here, but the stream cache is keyed by the
+                    // reference alone and holds the fully decoded data (see `Stream::data`).
+                    let mut data = resolve.stream_data(id, file_range.clone())?;
+                    for filter in normal_filters {
+                        data = t!(crate::enc::decode(&data, filter), filter).into();
+                    }
+                    data
+                };
+
                 match image_filters {
                     [] => Ok((data, None)),
                     [StreamFilter::DCTDecode(_)] |
